@@ -251,10 +251,51 @@ Proof. induction bits as [|b bits IH]; intros p; cbn [fold_left]; [reflexivity|]
 (* irrelevant_changes_range *)
 Definition in_range (from until m : Z) : bool := (from <=? m) && (m <? until).
 
+(* end of the part of [from, until) that irrelevant_changes_range takes note of (fix c71c7f1): the
+   whole range when it starts at or below ack_base, otherwise at most up to ack_base + 255 *)
+Definition icr_until (p : proxy) (from until : Z) : Z :=
+  if from <=? p_base p then until else Z.min until (p_base p + 256).
+
+Lemma icr_until_le p from until : icr_until p from until <= until.
+Proof. unfold icr_until. destruct (from <=? p_base p); lia. Qed.
+
 Lemma icr_known p from until m :
-  known_p (irrelevant_changes_range p from until) m = known_p p m || in_range from until m.
+  known_p (irrelevant_changes_range p from until) m
+  = known_p p m || in_range from (icr_until p from until) m.
 Proof.
-  unfold irrelevant_changes_range, in_range.
+  unfold irrelevant_changes_range, in_range, icr_until.
+  destruct (Z.ltb_spec until from) as [Hneg|Hpos].
+  - destruct (from <=? p_base p);
+      destruct (Z.leb_spec from m); cbn [andb]; rewrite ?orb_false_r; try reflexivity;
+      match goal with |- _ = _ || (m <? ?u) => destruct (Z.ltb_spec m u) end; try lia; now rewrite orb_false_r.
+  - destruct (Z.leb_spec from (p_base p)) as [Hfb|Hfb].
+    + destruct (Z.ltb_spec (p_base p) until) as [Hbu|Hbu].
+      * rewrite advance_known. unfold known_p, should_ignore_change.
+        cbn [p_base p_changes set_base set_changes]. rewrite memz_filter.
+        destruct (memz m (p_changes p));
+          destruct (Z.leb_spec from m), (Z.ltb_spec m until), (Z.ltb_spec m (p_base p)); cbn; try reflexivity; lia.
+      * unfold known_p, should_ignore_change. cbn [p_base p_changes set_changes]. rewrite memz_filter.
+        destruct (memz m (p_changes p));
+          destruct (Z.leb_spec from m), (Z.ltb_spec m until), (Z.ltb_spec m (p_base p)); cbn; try reflexivity; lia.
+    + unfold known_p, should_ignore_change. cbn [p_base p_changes set_changes].
+      rewrite memz_ins_all, memz_iota.
+      replace (from + (Z.min (until - 1) (p_base p + 255) - from + 1)) with (Z.min until (p_base p + 256)) by lia.
+      destruct (m <? p_base p), (memz m (p_changes p)), ((from <=? m) && (m <? Z.min until (p_base p + 256))); reflexivity.
+Qed.
+(* what is taken note of is part of what was said *)
+Lemma icr_known_sub p from until m :
+  known_p (irrelevant_changes_range p from until) m = true -> known_p p m = true \/ in_range from until m = true.
+Proof.
+  rewrite icr_known. intros H. apply orb_true_iff in H as [H|H]; [now left|right].
+  unfold in_range in *. apply andb_true_iff in H as [A B]. rewrite A. apply Z.ltb_lt in B.
+  pose proof (icr_until_le p from until). apply Z.ltb_lt. lia.
+Qed.
+
+(* the code before fix c71c7f1 took note of the whole range ... *)
+Lemma icr_old_known p from until m :
+  known_p (irrelevant_changes_range_old p from until) m = known_p p m || in_range from until m.
+Proof.
+  unfold irrelevant_changes_range_old, in_range.
   destruct (Z.ltb_spec until from) as [Hneg|Hpos].
   - destruct (Z.leb_spec from m), (Z.ltb_spec m until); cbn; try lia; now rewrite orb_false_r.
   - destruct (Z.leb_spec from (p_base p)) as [Hfb|Hfb].
@@ -270,6 +311,24 @@ Proof.
       rewrite memz_ins_all, memz_iota. replace (from + (until - from)) with until by lia.
       destruct (m <? p_base p), (memz m (p_changes p)), ((from <=? m) && (m <? until)); reflexivity.
 Qed.
+(* ... and the two agree exactly when the range starts at or below ack_base or ends within the
+   256 numbers from it; with one entry of `changes` per number of the range the old code's cost was
+   whatever the GAP claimed (C06) *)
+Lemma icr_old_new p from until : from <= p_base p \/ until <= p_base p + 256 ->
+  irrelevant_changes_range p from until = irrelevant_changes_range_old p from until.
+Proof.
+  intros H. unfold irrelevant_changes_range, irrelevant_changes_range_old.
+  destruct (until <? from); [reflexivity|]. destruct (Z.leb_spec from (p_base p)); [reflexivity|].
+  replace (Z.min (until - 1) (p_base p + 255) - from + 1) with (until - from) by lia. reflexivity.
+Qed.
+Lemma icr_old_differs :
+  let p := proxy_new in
+  known_p (irrelevant_changes_range_old p 3 1000) 500 = true
+  /\ known_p (irrelevant_changes_range p 3 1000) 500 = false
+  /\ known_p (irrelevant_changes_range p 3 1000) 256 = true
+  /\ known_p (irrelevant_changes_range p 3 1000) 257 = false.
+Proof. vm_compute. repeat split. Qed.
+
 Lemma icr_pinv p from until : pinv p -> pinv (irrelevant_changes_range p from until).
 Proof.
   intros [A B]. unfold irrelevant_changes_range.
